@@ -128,6 +128,9 @@ func c10Gen(seed uint64, tier string) any {
 	for i := 0; i < 24; i++ {
 		sc.Faults = append(sc.Faults, Corruption{K: "num", N: int(r.U64() >> 33)})
 	}
+	for i := 0; i < 16; i++ {
+		sc.Faults = append(sc.Faults, Corruption{K: "dupkey", N: int(r.U64() >> 33)})
+	}
 	return sc
 }
 
@@ -174,6 +177,33 @@ func garbage(r *Rng) string {
 		b[i] = byte(r.Intn(256))
 	}
 	return string(b)
+}
+
+// dupKeyFault repeats a key inside one object of the document, after the keys that are there: a second
+// type tag (of another kind) or a second payload. Writers that merge or append records produce this.
+func dupKeyFault(base string, seed int) string {
+	r := NewRng(uint64(seed))
+	var closes []int
+	inStr, esc := false, false
+	for i := 0; i < len(base); i++ {
+		c := base[i]
+		switch {
+		case esc:
+			esc = false
+		case inStr && c == '\\':
+			esc = true
+		case c == '"':
+			inStr = !inStr
+		case !inStr && c == '}' && i > 0 && base[i-1] != '{':
+			closes = append(closes, i)
+		}
+	}
+	if len(closes) == 0 {
+		return base
+	}
+	at := closes[r.Intn(len(closes))]
+	extra := Pick(r, []string{`,"t":0`, `,"t":2`, `,"t":5`, `,"t":6`, `,"t":7`, `,"t":8`, `,"t":9`, `,"t":4`, `,"T":6`, `,"v":1`, `,"v":{"list":[]}`, `,"v":null`, `,"t":0,"v":{"dict":{}}`})
+	return base[:at] + extra + base[at:]
 }
 
 // structFault applies one stale-schema fault to a JSON document (on the parsed tree).
@@ -319,6 +349,8 @@ func expandFaults(sc *C10Scenario) []string {
 			docs = append(docs, garbage(NewRng(uint64(f.N))))
 		case "num":
 			docs = append(docs, numFault(sc.Base, f.N))
+		case "dupkey":
+			docs = append(docs, dupKeyFault(sc.Base, f.N))
 		case "raw":
 			docs = append(docs, f.Doc)
 		}
